@@ -170,7 +170,9 @@ func ruleC12(w *World, r *Report) {
 	pats := map[string]string{}
 	if p := w.ByPath[pRoutingTypes]; p != nil {
 		if c := p.Types.Scope().Lookup("RulePattern"); c != nil {
-			if cc, ok := c.(interface{ Val() interface{ String() string } }); ok {
+			if cc, ok := c.(interface {
+				Val() interface{ String() string }
+			}); ok {
 				_ = cc
 			}
 		}
